@@ -15,10 +15,21 @@ WORK = os.path.join(os.environ.get("VERIF_WORK", HERE), "xlate_selftest_work")
 F = "suite.rs"
 FNS = ["t_arith", "t_shift", "t_shift32", "t_u8", "t_cast", "t_castbool", "t_div", "t_div_guard", "t_sat", "t_bits",
        "t_bits32", "t_minmax", "t_checked", "t_match_opt", "t_tuple", "t_early", "t_loop", "t_loop_break", "t_vec",
-       "t_shadow", "t_bool", "t_compound"]
+       "t_shadow", "t_bool", "t_compound",
+       # phase 2
+       "h_recs", "h_list", "h_gen", "t_for_range", "t_for_list", "t_loop2", "t_iter_sum", "t_iter_misc", "t_scan",
+       "t_index", "t_slice", "t_lastfirst", "t_set", "t_sip", "t_u128", "t_u128b", "t_try", "t_iflet",
+       "t_matchstmt", "t_gen", "t_rev", "t_structlit", "h_iter", "t_incl", "h_bytes", "t_bytes"]
 METHODS = [("Nt", "low"), ("Nt", "opt"), ("Pt", "cap"), ("Pt", "off")]
+HELPERS = [("Dn", "from_num"), ("Dn", "to_num"), ("Rec", "mk"), ("Sip", "new"), ("Sip", "round"), ("Sip", "hash"),
+           ("Sip", "digest"), ("Sip", "bump")]      # translated, exercised through the `t_*` functions
+SKIP_EVAL = {"h_recs", "h_gen", "h_bytes", "h_iter"}                     # parameters / results that are not integers
 WL = [Entry(F, None, f, f, "FnsSelftest", {1: 70}) for f in FNS] + \
-     [Entry(F, t, m, f"{t}_{m}", "FnsSelftest") for t, m in METHODS]
+     [Entry(F, t, m, f"{t}_{m}", "FnsSelftest") for t, m in METHODS + HELPERS] + \
+     [Entry(F, "Hp", "node", "Hp_node", "FnsSelftest"),
+      Entry(F, "Hp", "ext", "Hp_ext", "FnsSelftest", abstract=[("self.outside().len()", "olen", "usize")])]
+# `t_result` is compared through a hand-written Lean wrapper (its struct literal has an untranslatable field)
+EXTRA_HELPERS = [("Hp", "node"), ("Hp", "ext")]
 EDGES = [0, 1, 2, 3, 5, 7, 8, 31, 32, 63, 64, 65, 127, 128, 200, 255, 256, 65535, 65536, 2**31 - 1, 2**31,
          2**32 - 1, 2**32, 2**63 - 1, 2**63, 2**64 - 2, 2**64 - 1]
 
@@ -42,6 +53,8 @@ def main():
     rnd = random.Random(20240607)
     rs_body, lean_body = [], []
     for e, st, rec in w.report:
+        if (e.impl, e.fn) in HELPERS + EXTRA_HELPERS or e.fn in SKIP_EVAL:
+            continue
         st_ = w.struct(e.impl) if e.impl else None
         selft = []
         if rec.has_self:
@@ -84,6 +97,22 @@ def main():
         label = " ++ \" \" ++ ".join([f"\"{e.lean}\""] + [f"toString (r.getD {i} 0)" for i in range(k)])
         lean_body.append(f"#eval show IO Unit from do\n  for r in ([{ltab}] : List (List Nat)) do\n"
                          f"    IO.println ({label} ++ \" => \" ++ {lcall})")
+    # hand-written wrappers around translated methods whose receiver cannot be built from integers by the translator
+    for name, k, lean_expr in [("t_result", 3, "(unwrapD (Hp_node [r.getD 0 0, r.getD 1 0, r.getD 2 0, (r.getD 0 0) ^^^ (r.getD 1 0)] "
+                                "((r.getD 2 0) ||| 255) (r.getD 0 0) ((r.getD 1 0) &&& 1))) ^^^ Hp_ext (r.getD 2 0) 3")]:
+        cols = [values("u64", rnd, 40) for _ in range(k)]
+        tuples = [tuple(rnd.choice(c) for c in cols) for _ in range(300)]
+        vars_ = [f"x{i}" for i in range(k)]
+        tab = ", ".join("(" + ", ".join(f"{v}u64" for v in tup) + ",)" for tup in tuples)
+        rs_body.append(f"    static IN_{name}: &[({'u64, ' * k})] = &[{tab}];")
+        pat = "(" + ", ".join(vars_) + ",)"
+        fmt = " ".join(["{}"] * k)
+        rs_body.append(f"    for &{pat} in IN_{name} {{ p(&format!(\"{name} {fmt}\", {', '.join(vars_)}), "
+                       f"std::panic::catch_unwind(|| show(&{name}({', '.join(vars_)})))); }}")
+        ltab = ", ".join("[" + ", ".join(str(v) for v in tup) + "]" for tup in tuples)
+        label = " ++ \" \" ++ ".join([f"\"{name}\""] + [f"toString (r.getD {i} 0)" for i in range(k)])
+        lean_body.append(f"#eval show IO Unit from do\n  for r in ([{ltab}] : List (List Nat)) do\n"
+                         f"    IO.println ({label} ++ \" => \" ++ toString ({lean_expr}))")
     rs = ['#![allow(dead_code, unused_parens, arithmetic_overflow, unconditional_panic)]',
           'include!("' + os.path.join(HERE, "suite.rs") + '");',
           'trait Show { fn show(&self) -> String; }',
@@ -96,6 +125,10 @@ def main():
           'impl Show for Nt { fn show(&self) -> String { format!("{}", self.0) } }',
           'impl<A: Show, B: Show> Show for (A, B) { fn show(&self) -> String '
           '{ format!("({}, {})", self.0.show(), self.1.show()) } }',
+          'impl<A: Show, B: Show, C: Show> Show for (A, B, C) { fn show(&self) -> String '
+          '{ format!("({}, ({}, {}))", self.0.show(), self.1.show(), self.2.show()) } }',
+          'impl<A: Show, B: Show, C: Show, D: Show> Show for (A, B, C, D) { fn show(&self) -> String '
+          '{ format!("({}, ({}, ({}, {})))", self.0.show(), self.1.show(), self.2.show(), self.3.show()) } }',
           'impl<A: Show> Show for Option<A> { fn show(&self) -> String { match self '
           '{ Some(x) => format!("(some {})", x.show()), None => "none".to_string() } } }',
           'impl<A: Show> Show for Vec<A> { fn show(&self) -> String '
